@@ -19,7 +19,7 @@ from .. import artifacts as A
 from ..flow import arg_origins, origins
 from ..mir import op_const, op_local, try_edges
 from ..util import POLL, agg_assigns, bool_edges, call_true_false_edges, polls, result_return_kinds, switches_on, unreachable_without, where
-from .c01 import shrinkers_in
+from .c01 import shrinkers_except, shrinkers_in
 from .guards import body_family, closure_capture_origins, closure_users
 
 LEVEL = "other"
@@ -111,7 +111,11 @@ def order_rules(ctx):
     for key in ("acmed::config::Config::do_get_hook", "acmed::config::Certificate::get_hooks", "acmed::config::Account::get_hooks"):
         b = prog.must_body(key)
         sl = origins(b, {"l": 0, "p": []})
-        ctx.require(R3, not shrinkers_in(sl), "%s:%s" % (b.file, b.line), "%s builds its list without dropping/reordering (%s)" % (key.rsplit("::", 1)[1], shrinkers_in(sl)), [key, "order"])
+        # looking a hook / group DEFINITION up by name (`self.hook.iter().find(|h| h.name == name)`) is selection, not loss
+        def lookup(c):
+            return c.name.rsplit("::", 1)[-1] in ("find", "position", "find_map") and bool({("acmed::config::Config", "hook"), ("acmed::config::Config", "group")} & arg_origins(c, 0).fields)
+        shr = shrinkers_except(sl, lookup)
+        ctx.require(R3, not shr, "%s:%s" % (b.file, b.line), "%s builds its list without dropping/reordering (%s)" % (key.rsplit("::", 1)[1], shr), [key, "order"])
         grow = [v for v in sl.via if v.rsplit("::", 1)[-1] in ("append", "push", "extend", "collect", "extend_from_slice")]
         ctx.require(R3, bool(grow), "%s:%s" % (b.file, b.line), "%s appends in iteration order (%s)" % (key.rsplit("::", 1)[1], sorted(x.rsplit("::", 1)[-1] for x in grow)), [key, "append"])
         ctx.require(R3, "Vec<acmed::hooks::Hook>" in b.raw.get("output", ""), "%s:%s" % (b.file, b.line), "%s returns a Vec (ordered)" % key.rsplit("::", 1)[1], [key, "vec"])
